@@ -61,9 +61,9 @@ func (p *pwPath) addrKey(a ssa.Value) string {
 	a = p.resolve(a)
 	switch x := a.(type) {
 	case *ssa.FieldAddr:
-		return fmt.Sprintf("%p.%d", p.resolve(x.X), x.Field)
+		return fmt.Sprintf("%s.%d", objKey(p.resolve(x.X)), x.Field)
 	case *ssa.Alloc:
-		return fmt.Sprintf("%p", x)
+		return objKey(x)
 	case *ssa.IndexAddr:
 		// an element of a local array with a constant index (the backing array of a variadic call)
 		if c, ok := p.constOf(x.Index); ok && c.Kind() == constant.Int {
@@ -74,6 +74,15 @@ func (p *pwPath) addrKey(a ssa.Value) string {
 		}
 	}
 	return ""
+}
+
+// objKey: the key of an object; a local cell whose address does not escape
+// (no callee can write to it) is marked with a leading L.
+func objKey(v ssa.Value) string {
+	if a, ok := v.(*ssa.Alloc); ok && !a.Heap {
+		return fmt.Sprintf("L%p", a)
+	}
+	return fmt.Sprintf("%p", v)
 }
 
 // sliceElems: v is a slice of a local array filled with constant-index stores
@@ -124,7 +133,7 @@ func (p *pwPath) structField(v ssa.Value, idx int) (ssa.Value, bool) {
 
 // fieldOfObj returns the value last stored on this path into field idx of the object obj.
 func (p *pwPath) fieldOfObj(obj ssa.Value, idx int) (ssa.Value, bool) {
-	v, ok := p.stores[fmt.Sprintf("%p.%d", p.resolve(obj), idx)]
+	v, ok := p.stores[fmt.Sprintf("%s.%d", objKey(p.resolve(obj)), idx)]
 	return v, ok
 }
 
@@ -265,6 +274,7 @@ type pathWalker struct {
 	maxDepth int
 	paths    []*pwPath
 	overflow bool
+	noTables bool // do not resolve lookups in constant tables (used while the tables themselves are built)
 }
 
 func (p *pwPath) clone() *pwPath {
@@ -778,7 +788,7 @@ func (pw *pathWalker) run(s *pwState) []*pwState {
 				// a callee may write through any pointer it can reach: forget what is not a local cell
 				if _, isBuiltin := x.Call.Value.(*ssa.Builtin); !isBuiltin {
 					for k := range s.p.mem {
-						if strings.Contains(k, ".") {
+						if strings.Contains(k, ".") && !strings.HasPrefix(k, "L") {
 							delete(s.p.mem, k)
 						}
 					}
@@ -845,7 +855,19 @@ func (pw *pathWalker) run(s *pwState) []*pwState {
 					s.p.events = append(s.p.events, ins)
 					s.p.evDecided = append(s.p.evDecided, len(s.p.decisions))
 				}
-			case *ssa.MapUpdate, *ssa.Defer, *ssa.Go, *ssa.Send, *ssa.Lookup, *ssa.IndexAddr, *ssa.Index, *ssa.Slice:
+			case *ssa.Lookup:
+				if !pw.noTables {
+					if v, found, ok := s.p.tableLookup(x); ok {
+						if x.CommaOk {
+							s.p.tuples[x] = []ssa.Value{v, ssa.NewConst(constant.MakeBool(found), types.Typ[types.Bool])}
+						} else {
+							s.p.alias[x] = v
+						}
+					}
+				}
+				s.p.events = append(s.p.events, ins)
+				s.p.evDecided = append(s.p.evDecided, len(s.p.decisions))
+			case *ssa.MapUpdate, *ssa.Defer, *ssa.Go, *ssa.Send, *ssa.IndexAddr, *ssa.Index, *ssa.Slice:
 				s.p.events = append(s.p.events, ins)
 				s.p.evDecided = append(s.p.evDecided, len(s.p.decisions))
 			case *ssa.Return:
